@@ -241,7 +241,13 @@ pub fn random_script(rng: &mut Rng, max_len: usize) -> Vec<Step> {
                 s.change(&uri, vec![e]);
             }
             8 => s.close(&uri),
-            9 => s.unknown_notification(*rng.pick(&["$/cancelRequest", "workspace/didChangeConfiguration", "x"])),
+            9 => {
+                if rng.chance(600) {
+                    s.client_chatter(rng.below(5));
+                } else {
+                    s.unknown_notification(*rng.pick(&["$/cancelRequest", "workspace/didChangeConfiguration", "x"]));
+                }
+            }
             10 => {
                 s.shutdown();
             }
